@@ -155,7 +155,7 @@ where
 {
     // span: that of a failure tied at the furthest position
     let span_match = if rules.exact_span { span_ok::<I>(buf, m.span, r.span) } else { m.alt_spans.iter().any(|s| span_ok::<I>(buf, *s, r.span)) };
-    if !span_match {
+    if !span_match && !m.from_nested {
         return Some(format!(
             "error span {:?}: model expects the failure at token position {} with span (tokens) {:?} i.e. {:?}",
             r.span,
@@ -269,7 +269,7 @@ where
                     if re.custom.as_deref() != Some(t.as_str()) {
                         return Some(format!("emission #{}: expected {:?}, got {}", i, t, re.show()));
                     }
-                    if !span_ok::<I>(buf, e.span, re.span) {
+                    if !e.nested && !span_ok::<I>(buf, e.span, re.span) {
                         return Some(format!("emission {:?}: span tokens {:?} vs real {:?}", t, e.span, re.span));
                     }
                     if rules.contexts {
